@@ -304,3 +304,19 @@ def list_same_as(ctx, snap, lst):
     """the list object has the length and elements it had in the snapshot"""
     st, h = ctx.st, snap.meta
     return mk_bool(z3.And(st.list_len(lst) == h.list_len(lst), st.list_elems(lst) == h.list_elems(lst)))
+
+
+@specfn('lists_unchanged_but')
+def lists_unchanged_but(ctx, lst):
+    """every list allocated at entry other than `lst` is unchanged"""
+    st, old = ctx.st, ctx.entry
+    r = z3.Int(fresh_name('r'))
+    conj = []
+    for name in sorted(FAM_SORTS):
+        if not (name.startswith('len.') or name.startswith('el.')):
+            continue
+        now, then = _fam_now(st, name), _fam_now(old, name)
+        if now is then or z3.eq(now, then):
+            continue
+        conj.append(forall([r], z3.Implies(z3.And(r > 0, r < old.alloc, r != lst.t), z3.Select(now, r) == z3.Select(then, r)), patterns=[z3.Select(now, r)]))
+    return mk_bool(z3.And(*conj) if conj else z3.BoolVal(True))
